@@ -1,6 +1,8 @@
 package progcheck
 
 import (
+	"time"
+
 	"strings"
 
 	"verif/internal/harness"
@@ -47,7 +49,15 @@ func Reduce(block []mlua.Stmt, specs []string, o harness.Opts, maxTests int) []m
 	}
 	cat := category(msg)
 	tests := 0
+	// the reducer only serves the reader of a replay: give it a wall-clock
+	// budget too (a reduced program that loops costs a full CPU safety net per
+	// trial); when it is used up the current, less reduced, program is kept
+	deadline := time.Now().Add(90 * time.Second)
 	stillFails := func() bool {
+		if time.Now().After(deadline) {
+			tests = maxTests
+			return false
+		}
 		tests++
 		m, _, def := Check(cur, specs, o)
 		return def && m != "" && category(m) == cat
